@@ -235,15 +235,44 @@ def rule_const(ctx):
   init = c.methods["__init__"]
   tab = None
   for s_ in ast.walk(init.node):
-    if isinstance(s_, ast.Assign) and isinstance(s_.targets[0], ast.Name) and s_.targets[0].id == "ref_multipliers":
-      tab = fold.try_fold(s_.value)
+    if isinstance(s_, ast.Dict):
+      t_ = fold.try_fold(s_)
+      if isinstance(t_, dict) and t_ and all(isinstance(k_, int) and isinstance(v_, int) for k_, v_ in t_.items()):
+        tab = t_
   ok = isinstance(tab, dict) and list(tab) == sorted(tab) and all(isinstance(k, int) and isinstance(v, int) and v % 2 == 1 and v < 2 ** k for k, v in tab.items())
   ctx.record(R, init.where, "multiplier table", ok, "keys ascending (first key >= 2*output_size is selected), odd multipliers below 2^state_size" if ok else
              "multiplier table is not an ascending {state_size: odd multiplier < 2^state_size} map: %r" % (list(tab) if isinstance(tab, dict) else tab,))
-  src = ast.unparse(init.node)
-  sel = "if state_size >= self.output_size * 2:" in src or "if state_size >= 2 * self.output_size:" in src
-  brk = any(isinstance(x, ast.Break) for x in ast.walk(init.node))
-  cone = any(norm(s_) == "self.c = 1" for s_ in init.node.body)
+  from pcstatic import refmath
+  same = isinstance(tab, dict) and tab == refmath.TRUNC_LCG_MULTIPLIERS and all(v_ % 8 == 5 for v_ in refmath.TRUNC_LCG_MULTIPLIERS.values())
+  diff = sorted(k_ for k_ in set(tab or {}) | set(refmath.TRUNC_LCG_MULTIPLIERS) if (tab or {}).get(k_) != refmath.TRUNC_LCG_MULTIPLIERS.get(k_)) if isinstance(tab, dict) else []
+  ctx.record(R, init.where, "published multipliers", same, "12 entries equal the L'Ecuyer / Steele-Vigna multipliers (each = 5 mod 8: full period)" if same else
+             "multiplier(s) for state size %s differ from the published values: the generator no longer emulates the documented LCG" % diff)
+  # selection: the first table entry (ascending state sizes) with state size >= 2 * output_size, the largest as fall-back; increment 1
+  wi = sym.Walker(repo, init)
+  wi.run()
+  SELF_ = P("param", "self")
+  osz_p = P("param", [q for q in init.params() if q != "self"][0])
+  sets = [e for e in wi.events if e.kind == "setattr" and as_poly(e.data["base"]) == SELF_]
+  cone = any(e.data["attr"] == "c" and isinstance(e.data["value"], (Const, Poly)) and as_poly(e.data["value"]).as_int() == 1 for e in sets) and \
+      not any(e.data["attr"] == "c" and as_poly(e.data["value"]).as_int() != 1 for e in sets if not isinstance(e.data["value"], (Seq, tuple)))
+  sel = brk = False
+  for info in wi.loop_info.values():
+    it = as_poly(info["iter"]).as_atom() if not isinstance(info["iter"], Seq) and info["iter"] is not None else None
+    if it is None or it.kind != "items":
+      continue
+    for kind, val, s_, since, vis in info["body_paths"]:
+      key = sym.mk("key", it.args[0], as_poly(vis["k"]))
+      newf = s_.facts[len(vis["head"].facts):]
+      if kind == "break":
+        cs = [c12_canon(fc) for fc in newf]
+        cs = [c_ for c_ in cs if c_ is not None]
+        evs = [wi.events[x] for x in s_.trace if x >= since]
+        st_a = [e for e in evs if e.kind == "setattr" and e.data["attr"] == "a"]
+        sizes = [osz_p] + [sym.mk("attr", SELF_, e.data["attr"]) for e in sets if not isinstance(e.data["value"], (Seq, Const, tuple)) and as_poly(e.data["value"]) == osz_p]
+        if len(cs) == 1 and any((cs[0][0] - (x_ * 2 - key)).is_zero() for x_ in sizes) and cs[0][1] == 0 and len(st_a) == 1 and as_poly(st_a[0].data["value"]) == sym.mk("idx", it.args[0], key):
+          sel = brk = True
+  fallback = any(e.data["attr"] == "a" and not e.state.tags and isinstance(tab, dict) and as_poly(e.data["value"]).as_int() == tab[max(tab)] for e in sets) if isinstance(tab, dict) and tab else False
+  sel = sel and fallback
   ctx.record(R, init.where, "multiplier selection", sel and brk and cone, "first state size >= 2*output_size, increment 1" if sel and brk and cone else
              "multiplier selection / increment differs from the documented generator")
 
@@ -290,3 +319,8 @@ def rule_registry(ctx, m, base, classes):
     ok = bool(raises) and all(any(f_[0] == "cmp" and f_[1] == "NotIn" and as_poly(f_[2]) == name for f_ in e.facts) for e in raises) and \
         bool(rets) and all(as_poly(e.data["value"]) == sym.mk("idx", P("ref", MOD + ".RNGS"), name) for e in rets)
   ctx.record(R, MOD + ":GetRng", "lookup", ok, "raises for unknown names, returns RNGS[name] otherwise" if ok else "GetRng does not raise for unknown names / return RNGS[name]")
+
+
+def c12_canon(fc):
+  from .c12 import canon_le
+  return canon_le(fc) if fc[0] == "cmp" and fc[1] in ("Lt", "LtE", "Gt", "GtE") else None
